@@ -7,7 +7,7 @@ PATCH="$(readlink -f "$1")"; PROP="$2"; TIER="${3:-quick}"; SEED="${4:-1}"
 HERE="$(cd "$(dirname "$0")/.." && pwd)"
 . "$HERE/env.sh"
 S="$(mktemp -d /tmp/trypatch-XXXXXX)"
-trap 'rm -rf "$S"' EXIT
+[ "${KEEP:-0}" = 1 ] || trap 'rm -rf "$S"' EXIT; echo "scratch=$S"
 rsync -a --exclude .git /repo/ "$S/repo/"
 ( cd "$S/repo" && patch -p1 -s < "$PATCH" ) || { echo "patch does not apply"; exit 3; }
 rsync -a --exclude .git "$HERE/harness/" "$S/harness/"
